@@ -1340,3 +1340,114 @@ func E5SubsetOnce(c *core.Ctx, r *core.Report) {
 	r.Count("E5.subset-entries", n)
 	r.Floor("E5.subset-entries", 1)
 }
+
+// E5ValueTypes: every value put into a PDF object is of a type the object writer can serialise.
+func E5ValueTypes(c *core.Ctx, r *core.Report) {
+	r.Rule("E5.value-types", "pdfWriter.writeVal serialises a closed set of Go types (the cases of its type switch) and panics on anything else. Every value with a static non-interface type that is stored in a pdfDict or pdfArray (composite literal element, d[k] = v, append(arr, v…)) or handed to writeVal/writeObject has one of those types; values of interface type are followed no further (counted as opaque)")
+	p := c.MustPkg(pdfRel)
+	info := p.TypesInfo
+	// handled types from the type switch of writeVal
+	wv := core.MustFuncDecl(p, "pdfWriter.writeVal")
+	var handled []types.Type
+	ast.Inspect(wv.Body, func(n ast.Node) bool {
+		ts, ok := n.(*ast.TypeSwitchStmt)
+		if !ok || len(handled) > 0 {
+			return true
+		}
+		for _, s := range ts.Body.List {
+			for _, e := range s.(*ast.CaseClause).List {
+				if tv, ok := info.Types[e]; ok && tv.IsType() {
+					handled = append(handled, tv.Type)
+				}
+			}
+		}
+		return false
+	})
+	if len(handled) < 5 {
+		panic(core.Infra("E5.value-types: type switch of writeVal not found"))
+	}
+	isHandled := func(t types.Type) bool {
+		for _, h := range handled {
+			if types.Identical(t, h) {
+				return true
+			}
+		}
+		return false
+	}
+	var names []string
+	for _, h := range handled {
+		names = append(names, types.TypeString(h, func(*types.Package) string { return "" }))
+	}
+	isDict := func(t types.Type) bool { return t != nil && isNamed(t, "renderers/pdf", "pdfDict") }
+	isArr := func(t types.Type) bool { return t != nil && isNamed(t, "renderers/pdf", "pdfArray") }
+	n, opaque := 0, 0
+	for _, fd := range core.AllFuncDecls(p) {
+		fname := "pdf." + core.FuncName(fd)
+		seen := map[string]int{}
+		check := func(v ast.Expr, where string) {
+			t := info.TypeOf(v)
+			if t == nil {
+				return
+			}
+			if tv, ok := info.Types[v]; ok && tv.IsNil() {
+				return
+			}
+			if _, isIface := t.Underlying().(*types.Interface); isIface {
+				opaque++
+				return
+			}
+			// untyped constants take their default type
+			t = types.Default(t)
+			n++
+			ts := types.TypeString(t, func(*types.Package) string { return "" })
+			key := fmt.Sprintf("%s|%s|%s", fname, where, ts)
+			seen[key]++
+			if seen[key] > 1 {
+				return // one obligation per (function, position kind, type)
+			}
+			if isHandled(t) {
+				r.OK("E5.value-types", key, c.Pos(v.Pos()), "")
+			} else {
+				r.Fail("E5.value-types", key, c.Pos(v.Pos()), fmt.Sprintf("a value of type %s (`%s`) is %s, but writeVal only serialises %s and panics on any other type when the object is written", ts, types.ExprString(v), where, strings.Join(names, ", ")))
+			}
+		}
+		ast.Inspect(fd, func(m ast.Node) bool {
+			switch x := m.(type) {
+			case *ast.CompositeLit:
+				t := info.TypeOf(x)
+				if isDict(t) || isArr(t) {
+					for _, el := range x.Elts {
+						if kv, ok := el.(*ast.KeyValueExpr); ok {
+							check(kv.Value, "stored in a pdfDict literal")
+						} else {
+							check(el, "stored in a pdfArray literal")
+						}
+					}
+				}
+			case *ast.AssignStmt:
+				for i, l := range x.Lhs {
+					if ie, ok := l.(*ast.IndexExpr); ok && i < len(x.Rhs) && len(x.Lhs) == len(x.Rhs) {
+						if t := info.TypeOf(ie.X); isDict(t) || isArr(t) {
+							check(x.Rhs[i], "assigned to an element of a pdfDict/pdfArray")
+						}
+					}
+				}
+			case *ast.CallExpr:
+				if id, ok := x.Fun.(*ast.Ident); ok && id.Name == "append" && len(x.Args) > 1 && !x.Ellipsis.IsValid() {
+					if isArr(info.TypeOf(x.Args[0])) {
+						for _, a := range x.Args[1:] {
+							check(a, "appended to a pdfArray")
+						}
+					}
+				}
+				if f := core.CalleeOf(info, x); f != nil && f.Pkg() == p.Types && (f.Name() == "writeVal" || f.Name() == "writeObject") && len(x.Args) == 1 {
+					check(x.Args[0], "passed to "+f.Name())
+				}
+			}
+			return true
+		})
+	}
+	r.Count("E5.value-sites", n)
+	r.Count("E5.value-sites-opaque", opaque)
+	r.Floor("E5.value-sites", 150)
+}
